@@ -105,6 +105,16 @@ def signif_case(draw):
                        st.tuples(st.integers(1, 4000), st.integers(1, 6)).map(lambda t: t[0] / float(2 ** t[1])),
                        st.tuples(st.integers(1, 4000), st.integers(1, 3)).map(lambda t: -t[0] / float(10 ** t[1]))))
     x = draw(numbers(10 ** 12))
+    k = draw(st.integers(0, 9))
+    if k == 0:
+        # a small fraction against a huge significance, and the other way round: the quotient is tiny / huge
+        x = draw(st.sampled_from([0.000001, -0.000001, 0.25, -0.5, 0.001, 3.5e-7, 1e-9]))
+        s = draw(st.sampled_from([10000, 5000000, 4000000000, 10 ** 12, -4000000000, -10000]))
+    elif k == 1:
+        # a number a hair past a multiple of the significance
+        m = draw(st.integers(-1000, 1000))
+        s = draw(st.sampled_from([1, 2, 0.5, 10, -1, -2]))
+        x = m * abs(s) + draw(st.sampled_from([2.0 ** -40, -2.0 ** -40, 2.0 ** -30, -2.0 ** -30])) * max(1, abs(m * s))
     return {'x': x, 's': s, 'var': draw(st.booleans()), 'alias': draw(st.sampled_from(['', '', '.MATH', '.PRECISE']))}
 
 
